@@ -14,6 +14,7 @@ Ltac thr_cases i tid :=
 
 Section InvReg.
 Variable loads : label -> list label.
+Variable bad : label -> bool.
 
 Record inv_reg (s : state) : Prop := {
   i_regnd : NoDup (registry s);
@@ -70,7 +71,7 @@ Ltac frame_tac :=
   try (intros; rewrite upd_other by assumption; reflexivity);
   try (intros; rewrite ?upd_same; cbn; try discriminate; congruence).
 
-Lemma inv_reg_step : forall s tid s', inv_reg s -> kstep loads s tid s' -> inv_reg s'.
+Lemma inv_reg_step : forall s tid s', inv_reg s -> kstep loads bad s tid s' -> inv_reg s'.
 Proof.
   intros s tid s' I K.
   destruct K.
@@ -88,7 +89,7 @@ Proof.
       destruct (Nat.eq_dec i tid) as [->|Hne]; [congruence|exists i; rewrite upd_other by auto; auto].
   - (* KDone *)
     eapply inv_reg_frame with (tid := tid); [exact I|frame_tac..].
-    intros t. rewrite upd_same. cbn. destruct (after_pop_cases rest true) as [->| ->]; discriminate.
+    intros t. rewrite upd_same. cbn. destruct (after_pop_cases rest (negb (bad m))) as [->| ->]; discriminate.
   - (* KFail *)
     eapply inv_reg_frame with (tid := tid); [exact I|frame_tac..].
     intros t. rewrite upd_same. cbn. destruct (after_pop_cases rest false) as [->| ->]; discriminate.
